@@ -31,12 +31,14 @@ theorem fact_wire_names :
   decide
 
 /-- Source pin: the structural facts the model's shape relies on (skip of entries without '=', TrimSpace on both
-    sides, arg copy into every network, verbatim hand-over to the plugin, the plugin-side decode path, IPNet's JSON). -/
+    sides, arg copy into every network, verbatim hand-over to the plugin, the plugin-side decode path, IPNet's JSON, and that
+    the daemon reads the pod of a CNI request — and with it the annotation — from the API server, not from a watch cache that
+    may still hold an earlier incarnation of the same pod name). -/
 theorem fact_structure :
     parseSkipsEntryWithoutKv = true ∧ parseTrimsKeyAndValue = true ∧ delegateAddPassesArgsVerbatim = true ∧
     marshalCniArgsShape = true ∧ resolveCopiesCommonToEveryNetwork = true ∧ cmdAddDelegatesResolvedNetworks = true ∧
     allocateDecodesIPInfosKey = true ∧ ipInfoToResultCopiesIPAndGateway = true ∧
-    ipNetJSONIsCIDRStringKeepingHostBits = true := by
+    ipNetJSONIsCIDRStringKeepingHostBits = true ∧ getPodReadsApiserver = true := by
   decide
 
 /-! ## the daemon's argument passing -/
